@@ -7,6 +7,7 @@
 #include "vh.hpp"
 #include "gen.hpp"
 #include "oracle.hpp"
+#include "remesh_util.hpp"
 #include "local_mesh_refiner.hpp"
 
 using namespace vh;
@@ -47,6 +48,10 @@ static int cmd_forces_hist(const Args& a) {
         gen::Rot rot = g.coin(0.5) ? gen::rot_random(g) : gen::rot_identity(); const double st[3] = {g.uni(0.8, 1.25), g.uni(0.8, 1.25), g.uni(0.8, 1.25)}; const double nz = g.uni(0, 0.1);
         { auto& nl = cell_tester::nodes(*A); for (unsigned k : live) { V3 x = P[k] - ctr; auto w = gen::rapply(rot, {(double)x.x * st[0], (double)x.y * st[1], (double)x.z * st[2]});
                 cell_tester::pos(nl[k]).reset((double)ctr.x + w[0] + nz * minl[k] * g.uni(-1, 1), (double)ctr.y + w[1] + nz * minl[k] * g.uni(-1, 1), (double)ctr.z + w[2] + nz * minl[k] * g.uni(-1, 1)); } }
+        // the same admissibility as for fresh cells (forces command): no face angle below half a degree - the refiner can leave needle triangles of
+        // (almost) zero area behind, on which the hinge formulas divide by the area and the forces are rounding noise of size 1/area
+        { std::vector<V3> Pq; std::vector<orc::Tri> Tq; gen::extract(*A, Pq, Tq); R minang = 10; for (auto& t : Tq) { V3 q[3] = {Pq[t.a], Pq[t.b], Pq[t.c]}; for (int k = 0; k < 3; k++) { V3 u = q[(k + 1) % 3] - q[k], w = q[(k + 2) % 3] - q[k]; R cr = u.cross(w).norm(), dt = u.dot(w); minang = std::min(minang, (R)std::atan2((double)cr, (double)dt)); } }
+          if (!(minang > 0.5L * 3.14159265358979323846L / 180)) { c.v = "skip"; agg.add(c); agg.bin("skip:needle_triangle_after_history"); continue; } }
         // ---- forces on the cell with history: (1) all terms -> net force / torque; (2) pressure + tension + area elasticity only (the terms
         //      whose value the property fixes as a function of the mesh) -> compared with a fresh cell over the same live mesh
         const double Vt = A->get_volume() * g.uni(0.8, 1.3); cell_tester::target_volume(*A) = Vt;
@@ -54,6 +59,9 @@ static int cmd_forces_hist(const Args& a) {
         gen::extract(*A, P, T, &used, &live, &fslot);
         V3 sum, tq; R sabs = 0, tabs = 0; bool finite = true;
         { const auto& na = cell_tester::nodes(*A); for (unsigned k : live) { V3 fa(na[k].force().dx(), na[k].force().dy(), na[k].force().dz()); if (!std::isfinite((double)fa.norm())) finite = false; sum += fa; sabs += fa.norm(); V3 r = P[k] - ctr; tq += r.cross(fa); tabs += r.norm() * fa.norm(); } }
+        if (getenv("VH_TRACE")) { const auto& na = cell_tester::nodes(*A); for (unsigned k : live) { const vec3& f = na[k].force(); if (f.dx() != 0 || f.dy() != 0 || f.dz() != 0) fprintf(stderr, "node %u f %.6e %.6e %.6e\n", k, f.dx(), f.dy(), f.dz()); }
+            rmu::Inv inv = rmu::check_cell(*A, true, nullptr); fprintf(stderr, "check_cell: %s %s\n", inv.ok ? "ok" : inv.key.c_str(), inv.msg.c_str());
+            const auto& fl = cell_tester::faces(*A); for (const face& f : fl) if (f.is_used() && f.get_area() < 1e-12) fprintf(stderr, "face %u area %.3e nodes %u %u %u\n", f.get_local_id(), f.get_area(), cell_tester::n1(f), cell_tester::n2(f), cell_tester::n3(f)); }
         for (node& n : cell_tester::nodes(*A)) if (n.is_used()) n.set_force(vec3(0, 0, 0));
         auto strip = [](cell_type_param_ptr t) { t->angle_regularization_factor_ = 0; for (auto& f : t->face_types_) f.bending_modulus_ = 0; };
         strip(ct); A->apply_internal_forces(0.0);
